@@ -934,6 +934,15 @@ func c15Int(v any) int {
 	return 0
 }
 
+// the environment choice of a step: "cause" where the spec's record has it (ReaderCache, BgFinish), else "r"
+func c15R(s c15Step) string {
+	if c, ok := s["cause"].(string); ok {
+		return c
+	}
+	r, _ := s["r"].(string)
+	return r
+}
+
 func c15Res(err error) string {
 	if err == nil {
 		return "ok"
@@ -978,7 +987,20 @@ func (e *c15Env) pollWaiters(out *[]map[string]any) {
 
 const c15Long = 20 * time.Second
 
-var c15Modes = map[string]string{"ok": "pass", "fail": "fail"}
+var c15Modes = map[string]string{"ok": "pass", "fail": "fail", "cachefail": "pass"}
+
+// cacheFault makes every Add of the layer's chunk cache fail (the directory cache creates its work-in-progress files in
+// <dir>/wip: without that directory os.CreateTemp fails, as with ENOSPC); the returned function ends the fault
+func (e *c15Env) cacheFault() func() {
+	if e.fsdir == "" {
+		return func() {}
+	}
+	wip := filepath.Join(e.fsdir, "wip")
+	if err := os.Rename(wip, wip+".off"); err != nil {
+		return func() {}
+	}
+	return func() { os.Rename(wip+".off", wip) }
+}
 
 // step executes one spec action if it is applicable to the implementation's present situation; returns the events
 func (e *c15Env) step(s c15Step) (evs []map[string]any, applied bool) {
@@ -1050,7 +1072,7 @@ func (e *c15Env) step(s c15Step) (evs []map[string]any, applied bool) {
 			}
 		}
 	case "BlobCache":
-		r, _ := s["r"].(string)
+		r := c15R(s)
 		mode := c15Modes[r]
 		if e.pfStall {
 			e.reg.setMode(false, mode)
@@ -1070,7 +1092,7 @@ func (e *c15Env) step(s c15Step) (evs []map[string]any, applied bool) {
 			ev["r"] = c15Res(err)
 		}
 	case "ReaderCache":
-		r, _ := s["r"].(string)
+		r := c15R(s)
 		if e.pfGate == nil || e.pfGate.name != "layer.prefetch.fetched" {
 			return nil, false
 		}
@@ -1078,8 +1100,15 @@ func (e *c15Env) step(s c15Step) (evs []map[string]any, applied bool) {
 			return nil, false
 		}
 		e.reg.setMode(false, c15Modes[r])
+		endFault := func() {}
+		if r == "cachefail" {
+			endFault = e.cacheFault()
+			ev["cause"] = "cache"
+			r = "fail" // what the step has to report
+		}
 		close(e.pfGate.rel)
 		e.pfGate = e.nextGate("layer.prefetch.cached", 2*c15Long)
+		endFault()
 		e.reg.setMode(false, "pass")
 		ev["r"], ev["want"] = "hung", r
 		if e.pfGate != nil {
@@ -1182,19 +1211,29 @@ func (e *c15Env) step(s c15Step) (evs []map[string]any, applied bool) {
 			return e.bgFinish(ev, "pass")
 		}
 	case "BgFinish":
-		r, _ := s["r"].(string)
+		r := c15R(s)
 		mode := c15Modes[r]
 		if e.brunner == 0 || e.bret[e.brunner] == nil || e.prio > 0 || e.pfPrio {
 			return nil, false
 		}
 		e.reg.setMode(true, mode)
+		endFault := func() {}
+		if r == "cachefail" {
+			endFault = e.cacheFault()
+			ev["cause"] = "cache"
+		}
 		if e.bgGate != nil {
 			close(e.bgGate.rel)
 			e.bgGate = nil
 		}
 		e.reg.release(true, mode)
 		e.bgStall, e.bgSusp = false, false
-		return e.bgFinish(ev, mode)
+		evs, ok := e.bgFinish(ev, mode)
+		endFault()
+		if r == "cachefail" {
+			ev["want"] = "fail"
+		}
+		return evs, ok
 	case "BgReturn":
 		b := c15Int(s["b"])
 		ch := e.bret[b]
